@@ -129,6 +129,10 @@ def realise(U, tok, variant=""):
         if p[1] == "-":
             return SemanticPointer(vec(n, zero=zero), algebra=ALGS[alg], name=name)
         v = U.vocabs[int(p[1])]
+        if "identity" in variant:
+            return v["Identity"]     # the special elements a vocabulary hands out belong to it
+        if "zeroelem" in variant:
+            return v["Zero"]
         if "named" in variant:
             return v["A"]            # vocabulary members carry their key as name
         if zero or not U.populated:
@@ -350,6 +354,11 @@ class Checker:
         case = {"objs": objs, "ops": ops, "variants": {str(k): v for k, v in variants.items()}, "universe": U.tok()}
         ctx.sample(dict(case, impl=outs, world_after=after), limit=8)
         # invariant of the statement's last sentence, checked on every program: a SemanticPointer never changes
+        for i, (t_, b) in enumerate(zip(objs, before)):
+            if t_.startswith("P:") and b != t_:
+                ctx.fail(dict(case, **{"class": "operand does not belong to what handed it out"}), f"operand {i} is {b}",
+                         f"{t_} (a pointer obtained from a vocabulary carries that vocabulary and its algebra)",
+                         where="operand-membership")
         for i, (b, a) in enumerate(zip(before, after)):
             if b.startswith("P:") and a != b:
                 ctx.fail(dict(case, **{"class": "pointer changed by an operation"}), f"operand {i}: {b} -> {a}",
@@ -364,7 +373,7 @@ class Checker:
                     ctx.diff(case, impl, f"{st} {payload}", op="run")
                     return
                 mo, mw = payload.split("|")
-                zero = "zero" in case["variants"].values()
+                zero = any(v_ in ("zero", "zeroelem") for v_ in case["variants"].values())
                 if zero:
                     # compare()/distance() of a zero vector return the Python literal 0 / 1 instead of a NumPy float:
                     # the kind of number is outside the statement, so both count as "a number" for zero operands
@@ -504,7 +513,7 @@ REPR = ("P:0:0:4", "P:1:0:4", "P:3:1:4", "P:-:0:4", "P:-:1:4", "S:A", "M:V0", "R
 def kinds_for(U, tier):
     ks = []
     for i, (d, a) in enumerate(U.spec):
-        ks.append((f"P:{i}:{a}:{d}", ["", "named", "zero"] if i == 0 else ["", "zero"]))
+        ks.append((f"P:{i}:{a}:{d}", ["", "named", "zero", "identity", "zeroelem"] if i == 0 else ["", "zero", "identity"]))
     bare = [(0, 4), (1, 4), (0, 9), (0, 1)]
     if tier != "quick":
         bare += [(2, 4), (1, 9)]
